@@ -205,6 +205,11 @@ def _cfg(**kw):
     base = dict(groups=groups, min_pitch=-12, max_pitch=115, velocities=st.integers(1, 127), max_bars=3, max_groups=6, max_tracks=3,
                 text=st.text(alphabet=st.characters(min_codepoint=32, max_codepoint=126), max_size=10), partial_last=True, rest_p=3,
                 instruments=["none", "midi", "midi", "generic"])
+    # values given as 288/k (k whole ticks), outside the named vocabulary
+    base["groups"] = base["groups"] + [[["ticks", k]] for k in (1, 2, 3, 5, 7, 10, 11, 13, 14, 28, 31, 35, 56, 59, 62, 77, 100, 112, 115, 118, 124, 143, 211, 224, 250)]
+    long_name = st.text(alphabet=st.characters(min_codepoint=32, max_codepoint=126), min_size=120, max_size=300)
+    base["text"] = st.one_of(base["text"], base["text"], base["text"], long_name)
+    base["twin_p"] = 5
     base.update(kw)
     return SG.Cfg(**base)
 
